@@ -16,15 +16,23 @@ def is_backend(v):
     return isinstance(v, tuple) and v and v[0] == "backend"
 
 
-def norm_recv(v, depth=0):
+def norm_recv(v, depth=0, resolve=None):
     """A wrapper struct that holds the stream handle in a field (WriterWithPos, ReaderWithPos,
-    SliceWithPos, SchemaWriter built around the backend) is the stream handle."""
-    if isinstance(v, tuple) and v and depth < 4:
+    SliceWithPos, SchemaWriter built around the backend) is the stream handle. `resolve` loads
+    references to local places found inside the wrapper (SchemaWriter { writer: &mut W, .. })."""
+    if isinstance(v, tuple) and v and depth < 5:
+        if v[0] == "mref" and resolve is not None:
+            try:
+                v2 = resolve(v)
+            except Exception:
+                v2 = v
+            if v2 != v:
+                return norm_recv(v2, depth + 1, resolve)
         if v[0] == "backend":
             return ("backend",)
         if v[0] == "adt":
             for (_i, fv) in v[3]:
-                if norm_recv(fv, depth + 1) == ("backend",):
+                if norm_recv(fv, depth + 1, resolve) == ("backend",):
                     return ("backend",)
     return v
 
@@ -64,7 +72,7 @@ class WireHooks:
         ti = ip.u.trait_item_of(resolved or callee) or callee
         sh = short(ti)
         name = dj.get("name")
-        a0 = norm_recv(ip.load_ref(st, args[0])) if args else None
+        a0 = norm_recv(ip.load_ref(st, args[0]), 0, lambda r: ip.load_ref(st, r)) if args else None
         if dj["krate"] == "core":
             # backend.data[..n]   (Index::index on the remaining slice)
             if sh in ("Index::index", "IndexMut::index_mut") and len(args) == 2 and a0 == ("bdata",):
